@@ -72,7 +72,11 @@ class CCtx:
 def filter_path(I, res, prop, which):
     cx = CCtx(I, res, prop, "filter:" + which)
     log = []
-    ch = cx.channel("c1", dict(type="Pty", state="Pst", tag="Ptg", key="Pky", uses="Pus"))
+    # which of the five patterns are non-default: all of them, or exactly one
+    allp = dict(type="Pty", state="Pst", tag="Ptg", key="Pky", uses="Pus")
+    sel = I.path.choose(6, "patterns")
+    pats = allp if sel == 0 else {k: v for i, (k, v) in enumerate(allp.items()) if i == sel - 1}
+    ch = cx.channel("c1", pats)
     cx.listen(ch, which, log, "c1")
     d = cx.channel("dflt")
     cx.listen(d, which, log, "dflt")
@@ -81,8 +85,11 @@ def filter_path(I, res, prop, which):
     msg = cx.message(type="T", tag="TG", key="K", uses="U", model_tag="MTG", id="m1", state=Enum("MessageState", created[1], [], "Created"))
     cx.emit(which, msg)
     res.witnesses += 1
-    g = lambda p, s: cx.glob(p, s)
-    expected = z3.And(g("Pty", "T"), g("Pst", "created"), z3.Or(g("Ptg", "TG"), g("Ptg", "MTG")), g("Pky", "K"), g("Pus", "U"))
+    def g(field, p, s):
+        b = cx.glob(p if field in pats else "*", s)
+        return z3.BoolVal(b) if isinstance(b, bool) else b
+
+    expected = z3.And(g("type", "Pty", "T"), g("state", "Pst", "created"), z3.Or(g("tag", "Ptg", "TG"), g("tag", "Ptg", "MTG")), g("key", "Pky", "K"), g("uses", "Pus", "U"))
     n = log.count("c1")
     if n > 1:
         cx.viol("filter:delivered-twice", "one message reached the handler of one channel %d times" % n)
@@ -91,7 +98,7 @@ def filter_path(I, res, prop, which):
     f = expected if got else z3.Not(expected)
     neg = z3.Not(f)
     if I.check_sat(neg):
-        cx.viol("filter:%s:%s" % (which, "delivered-but-filter-says-no" if got else "not-delivered-but-filter-says-yes"),
+        cx.viol("filter:%s:%s:patterns=%s" % (which, "delivered-but-filter-says-no" if got else "not-delivered-but-filter-says-yes", "all" if sel == 0 else "only-" + list(pats)[0]),
                 "the handler was %sinvoked although the filter (type and state and (tag or model tag) and key and uses) says otherwise" % ("" if got else "not "), neg)
     if log.count("dflt") != 1:
         cx.viol("filter:default-channel-deliveries=%d" % log.count("dflt"), "a channel with default options received the message %d times" % log.count("dflt"))
